@@ -475,6 +475,10 @@ class TopLevelVisitor(ast.NodeVisitor):
                 # assuming that the docstr is actually terminated with this
                 # kind of triple quote, then the end line is at this position
                 cand_stop_ = start + nlines
+                if cand_stop_ >= len(sourcelines):
+                    # Escaped newlines in a non-raw docstring are not line
+                    # breaks in the source, so this cannot be the end line.
+                    continue
                 endline = sourcelines[cand_stop_]
 
                 endpat = re.escape(trip) + r'\s*#.*$'
@@ -633,6 +637,10 @@ class TopLevelVisitor(ast.NodeVisitor):
                 # assuming that the docstr is actually terminated with this
                 # kind of triple quote, then the start line is at this position
                 cand_start_ = stop - nlines - 1
+                if cand_start_ < 0:
+                    # Escaped newlines in a non-raw docstring are not line
+                    # breaks in the source, so this cannot be the start line.
+                    continue
                 startline = sourcelines[cand_start_]
 
                 # The startline should also begin with the same triple quote
